@@ -296,3 +296,20 @@ harness!(c17_float_constructors_small_inputs, unwind = 2, |s| {
     v_assert!(s, Some(a.duration.to_parts()) == want, "from_mjd_in_time_scale(x) is x days after MJD 0 (exact for quarter days)");
     v_cover!(k < 0 && k % 4 != 0, "negative non-integer MJD reachable");
 });
+
+// narrow-window twin of c17_utc_views: UNIX time around the two most recent leap seconds (two minutes before the UTC midnight
+// that follows the insertion to two minutes after it). Leap seconds are not counted: UNIX time is UTC elapsed - 1970-01-01.
+harness!(c17_unix_leap_windows, unwind = 44, |s| {
+    let which = s.bool();
+    let off = s.u64();
+    s.assume(off < 240 * NPS);
+    // UTC day index (since 1900-01-01) of 2017-01-01 and 2015-07-01
+    let day = if which { days_from_1900(2017, 1, 1) } else { days_from_1900(2015, 7, 1) } as u64;
+    let n_abs = day * NPD - 120 * NPS + off; // UTC elapsed since 1900, century 1
+    let n = n_abs - NPC;
+    let e = Epoch::from_duration(Duration::from_parts(1, n), TimeScale::UTC);
+    let unix0 = days_from_1900(1970, 1, 1) as i128 * DAY;
+    let u = e.verif_to_unix_duration();
+    v_assert!(s, Some(u.to_parts()) == shift_far((1, n), -unix0), "UNIX duration = UTC elapsed since 1970-01-01, leap seconds not counted, on both sides of a leap second");
+    v_cover!(off < 120 * NPS && which, "last two minutes of 2016 reachable");
+});
